@@ -161,9 +161,16 @@ def run(shard, ctx):
     strings = [node, missing] + more_nodes + [
                "iscsi://user%secret@192.0.2.7:3260/iqn.2003-01.org.example:t/1", "iscsi://user@192.0.2.7/iqn.2003-01.org.example:t/2",
                "iscsi://[2001:db8::7]:3260/iqn.2003-01.org.example:t/0", "iscsi://chap%pass%word@h:1/iqn.x:y/255", "/dev", "/devx/sg0", "dev/sg0", " /dev/sg0", "/DEV/sg0", "iscsi://192.0.2.7:3260/iqn.2003-01.org.example:t/0",
-               "iscsi://h/iqn/0", "ISCSI://h/iqn/0", "iscsi:/h/iqn/0", "iscsi//h", "", "file:///dev/sg0", "sg0", "\\\\.\\PhysicalDrive0"]
+               "iscsi://h/iqn/0", "ISCSI://h/iqn/0", "iscsi:/h/iqn/0", "iscsi//h", "", "file:///dev/sg0", "sg0", "\\\\.\\PhysicalDrive0",
+               # logical unit numbers beyond one byte (the binding does the wire encoding, the library passes the number on)
+               "iscsi://192.0.2.7:3260/iqn.2003-01.org.example:t/256", "iscsi://192.0.2.7:3260/iqn.2003-01.org.example:t/300",
+               "iscsi://192.0.2.7:3260/iqn.2003-01.org.example:t/4660", "iscsi://192.0.2.7:3260/iqn.2003-01.org.example:t/16383",
+               "iscsi://192.0.2.7:3260/iqn.2003-01.org.example:t/16384", "iscsi://192.0.2.7:3260/iqn.2003-01.org.example:t/65535",
+               # unsupported strings with characters that mean something to string formatting
+               "iscsi:/user%secret@h/iqn/0", "ISCSI://user%secret@h/t/1", "file:///dev/disk%201.img", "nbd://host/export%2Fa", "%s", "%d", "100%", "/devx/%s",
+               "{}", "{0}", "{dev}", "nbd://{host}/x", "\\N{BULLET}", "a\nb", "dev\x00"]
     for _ in range(shard["n"]):
-        strings.append("".join(rng.choice("abc/:de.v-_ 0") for _ in range(rng.randint(1, 14))))
+        strings.append("".join(rng.choice("abc/:de.v-_ 0%{}s") for _ in range(rng.randint(1, 14))))
     isc = sys.modules.get("iscsi")
     default_iqn = "iqn.2018-01.org.pyscsi:%s" % socket.gethostname()
     for dev in strings:
@@ -247,6 +254,25 @@ def run(shard, ctx):
                                 ctx.fail("C19:%s.iscsi_url" % cfg, "URL calls %r, connect %r" % (urls, [c for c in conns if c[0] == "connect"]), wit)
                             if names != [want_name]:
                                 ctx.fail("C19:%s.iscsi_initiator_name" % cfg, "Context(%r), expected %r" % (names, want_name), wit)
+                            # portal, target and logical unit are the ones the binding parsed from exactly that URL
+                            ref_url = isc.URL(None, dev)
+                            del isc.calls[-1:]
+                            connects = [c for c in conns if c[0] == "connect"]
+                            if connects and connects != [("connect", ref_url.portal, ref_url.lun)]:
+                                ctx.fail("C19:%s.iscsi_connect_arguments" % cfg, "connect%r, the URL names portal %r lun %r" % (connects[0][1:], ref_url.portal, ref_url.lun), wit)
+                            targets = [c[1] for c in conns if c[0] == "set_targetname"]
+                            if targets and targets != [ref_url.target]:
+                                ctx.fail("C19:%s.iscsi_target_name" % cfg, "set_targetname%r, the URL names %r" % (targets, ref_url.target), wit)
+                            from pyscsi.pyscsi.scsi_cdb_testunitready import TestUnitReady
+
+                            isc.log = []
+                            try:
+                                obj.execute(TestUnitReady(E.spc.TEST_UNIT_READY))
+                                if [ev.get("lun") for ev in isc.log] != [ref_url.lun]:
+                                    ctx.fail("C19:%s.iscsi_command_lun" % cfg, "command addressed to lun %r, the URL names %r" % ([ev.get("lun") for ev in isc.log], ref_url.lun), wit)
+                                ctx.count("iscsi_commands_inspected")
+                            except Exception as e:  # noqa: BLE001
+                                ctx.fail("C19:%s.first_command_fails" % cfg, "first command on the new iSCSI device raised %s" % e, wit, exc=e)
                             obj.close()
                     else:
                         if not isinstance(exc, NotImplementedError):
